@@ -166,9 +166,12 @@ impl Stitch {
                 }
                 State::BeforeBand(band_id) => {
                     // Start reading this new index and skip forward until after last_apath
-                    match Band::open(&self.archive, *band_id).await {
-                        Ok(band) => {
-                            let mut index_hunks = band.index().iter_available_hunks().await;
+                    let index_hunks = match Band::open(&self.archive, *band_id).await {
+                        Ok(band) => band.index().try_iter_available_hunks().await,
+                        Err(err) => Err(err),
+                    };
+                    match index_hunks {
+                        Ok(mut index_hunks) => {
                             if let Some(last) = &self.last_apath {
                                 index_hunks = index_hunks.advance_to_after(last)
                             }
